@@ -137,6 +137,8 @@ class RPath:
 
 def path_text(v):
     v = unbox(v)
+    while isinstance(v, EnumV) and v.ty.endswith("Cow"):
+        v = unbox(v.fields[0])
     if isinstance(v, RPath):
         return v.s
     if isinstance(v, RString):
